@@ -258,6 +258,10 @@ Proof. intros [[[_ C] _] _]. apply cids_fresh, C. Qed.
 Lemma kp_seq a b c : kp a b -> (cid_fresh b -> kp b c) -> cid_fresh a -> kp a c.
 Proof. intros H1 H2 Fa. eapply kp_trans; [exact H1|]. apply H2. eapply kp_fresh; eassumption. Qed.
 
+(* dropping an entry of the origin table changes nothing kp speaks about *)
+Lemma kp_drop_origin n h e : kp n (drop_origin n h e).
+Proof. split; [apply frame_same; reflexivity|apply swk_wk, swk_same; reflexivity]. Qed.
+
 (* kp for send_message *)
 Lemma send_message_kp n cid m : kp n (fst (send_message n cid m)).
 Proof.
@@ -567,7 +571,7 @@ Qed.
 Lemma recv_cer_kp n cid m : kp n (fst (recv_cer n cid m)).
 Proof.
   unfold recv_cer. destruct (get_conn n cid) as [c0|] eqn:Hc0; [|apply kp_refl].
-  destruct (cstate_eqb (c_state c0) SConnected) eqn:Hs0; cbn [negb]; [|apply kp_refl].
+  destruct (cstate_eqb (c_state c0) SConnected) eqn:Hs0; cbn [negb]; [|apply kp_drop_origin].
   destruct (pres_get (m_origin m)) as [host|]; [|apply kp_refl].
   destruct (get_peer n host) as [p|].
   2:{ eapply kp_trans; [|apply send_message_kp]. apply upd_conn_kp; [reflexivity|].
